@@ -5,6 +5,7 @@ import (
 	"encoding/json"
 	"fmt"
 	"math/rand"
+	"sort"
 
 	sdk "github.com/pokt-network/pocket-core/types"
 )
@@ -40,14 +41,17 @@ type Chaos struct {
 	Cfg    ChaosCfg
 	Ledger []TxMeta
 	// guesses about state (only to steer generation)
-	nodeKeys   []int // keys that are (probably) nodes
-	candNodes  []int // funded keys that may stake as nodes
-	appKeys    []int
-	candApps   []int
-	acctKeys   []int
-	outputOf   map[int]int // node key -> output key
-	victim     int         // node key currently being made to miss votes (-1 none)
-	victimLeft int
+	nodeKeys      []int // keys that are (probably) nodes
+	candNodes     []int // funded keys that may stake as nodes
+	appKeys       []int
+	candApps      []int
+	acctKeys      []int
+	outputOf      map[int]int // node key -> output key
+	victim        int         // node key currently being made to miss votes (-1 none)
+	victimLeft    int
+	pendingUnjail map[int]int // node key -> unjail attempts left
+	elapsed       int64       // seconds between genesis and the block under construction
+	elapsedGen    int64
 }
 
 func hx(b []byte) string { return hex.EncodeToString(b) }
@@ -121,6 +125,8 @@ func (c *Chaos) GenBlock() {
 	r := c.R
 	dt := []int64{1, 30, 60, 60, 60, 200, 700, 4000}[r.Intn(8)]
 	blk := c.B.Begin(dt)
+	c.elapsed = 8*60 + c.elapsedGen + dt // bootstrap blocks are 60 s apart
+	c.elapsedGen += dt
 	// missed votes: keep a victim for several consecutive blocks so that it crosses the downtime threshold
 	if c.victim < 0 && r.Intn(9) == 0 && len(c.nodeKeys) > 2 {
 		c.victim, c.victimLeft = c.pick(c.nodeKeys), 3+r.Intn(4)
@@ -129,7 +135,28 @@ func (c *Chaos) GenBlock() {
 		blk.Missed = append(blk.Missed, AddrHex(c.victim))
 		c.victimLeft--
 		if c.victimLeft <= 0 {
+			// the victim is probably jailed now: try to unjail it in each of the next blocks (before and after JailedUntil)
+			if c.pendingUnjail == nil {
+				c.pendingUnjail = map[int]int{}
+			}
+			c.pendingUnjail[c.victim] = 4 + r.Intn(5)
 			c.victim = -1
+		}
+	}
+	var pend []int
+	for k := range c.pendingUnjail {
+		pend = append(pend, k)
+	}
+	sort.Ints(pend)
+	for _, k := range pend {
+		signer := k
+		if o, ok := c.outputOf[k]; ok && r.Intn(2) == 0 {
+			signer = o
+		}
+		c.add("node_unjail", signer, MsgNodeUnjail(Addr(k), Addr(signer)), TxMeta{Target: AddrHex(k), Note: "follow-up"})
+		c.pendingUnjail[k]--
+		if c.pendingUnjail[k] <= 0 {
+			delete(c.pendingUnjail, k)
 		}
 	}
 	if r.Intn(5) == 0 && len(c.nodeKeys) > 0 {
@@ -142,7 +169,7 @@ func (c *Chaos) GenBlock() {
 		if r.Intn(5) == 0 {
 			age = 500 // too old
 		}
-		blk.Evidence = append(blk.Evidence, EvidenceSpec{Addr: AddrHex(v), Height: c.B.H - 1 - age, Time: GenesisTime.Unix() + 60*c.B.H - age*60, Power: 15000 + int64(r.Intn(8000))})
+		blk.Evidence = append(blk.Evidence, EvidenceSpec{Addr: AddrHex(v), Height: c.B.H - 1 - age, Time: c.elapsed - age*60, Power: 15000 + int64(r.Intn(8000))})
 	}
 	ntx := r.Intn(7)
 	for i := 0; i < ntx; i++ {
@@ -289,6 +316,28 @@ func (c *Chaos) genTx() {
 
 // Generate appends cfg.Blocks random blocks.
 func (c *Chaos) Generate() {
+	if c.Cfg.Delegators {
+		// Reward delegators can only be set by an edit-stake after the feature is active (genesis strips them):
+		// every second node gets 3-7 delegators whose accounts do not exist yet, in one block.
+		c.B.Begin(60)
+		c.elapsedGen += 60
+		for i, k := range c.nodeKeys {
+			if i%2 != 0 {
+				continue
+			}
+			d := map[string]uint32{}
+			for j, nd := 0, 3+c.R.Intn(5); j < nd; j++ {
+				d[AddrHex(KeyDeleg0+i*10+j)] = uint32(1 + c.R.Intn(10))
+			}
+			out := Addr(k)
+			if o, ok := c.outputOf[k]; ok {
+				out = Addr(o)
+			}
+			stake := int64(30_100_000_000 + 1_000_000*int64(i))
+			c.add("node_edit", k, MsgNodeStake(Key(k), []string{"0001", "0021"}, stake, "https://d"+itoa(k)+".example:443", out, d), TxMeta{Target: AddrHex(k), Amount: stake, Note: "set-delegators"})
+		}
+		c.B.End()
+	}
 	for i := 0; i < c.Cfg.Blocks; i++ {
 		c.GenBlock()
 	}
